@@ -259,9 +259,16 @@ int cmd_eval_cache_replay(const Args& a)
     std::vector<std::string> zero_slot;                     // pawn key != 0, low bits == 0
     std::map<uint64_t, std::vector<std::string>> by_slot;   // for collisions
     std::vector<std::pair<std::string, std::string>> collisions;
+    // partial-key collisions: different structures agreeing in the low / high 32 bits of the pawn key (birthday search);
+    // a table that compares only part of the key confuses them
+    std::unordered_map<uint32_t, std::pair<uint64_t, std::string>> lo32, hi32;
+    std::vector<std::pair<std::string, std::string>> part_lo, part_hi;
+    const int want_partial = (int)a.i("partial", 2);
+    const long partial_budget = a.i("partial-budget", 600000);
     long tries = 0;
     const char* frames[] = {"r3k3/%s/R3K2R", "4k3/%s/4K3", "1n2k3/%s/2B1K3", "3qk3/%s/3QK3"};
-    while (((int)zero_slot.size() < want || (int)collisions.size() < want) && tries < 40000000)
+    while ((((int)zero_slot.size() < want || (int)collisions.size() < want) && tries < 40000000) ||
+           (((int)part_lo.size() < want_partial || (int)part_hi.size() < want_partial) && tries < partial_budget))
     {
         tries++;
         char b[6][8];
@@ -288,6 +295,17 @@ int cmd_eval_cache_replay(const Args& a)
         if (p.is_in_check(BLACK)) continue;
         uint64_t pk = p.pawn_hash();
         if (pk != 0 && (pk & MASK) == 0 && (int)zero_slot.size() < want) zero_slot.push_back(fen);
+        if (tries < partial_budget)
+        {
+            auto look = [&](std::unordered_map<uint32_t, std::pair<uint64_t, std::string>>& m, uint32_t part,
+                            std::vector<std::pair<std::string, std::string>>& outv) {
+                auto it = m.find(part);
+                if (it == m.end()) m.emplace(part, std::make_pair(pk, fen));
+                else if (it->second.first != pk && (int)outv.size() < want_partial) outv.push_back({it->second.second, fen});
+            };
+            look(lo32, uint32_t(pk & 0xFFFFFFFFu), part_lo);
+            look(hi32, uint32_t(pk >> 32), part_hi);
+        }
         if ((int)collisions.size() < want && tries < 3000000)
         {
             auto& v = by_slot[pk & MASK];
@@ -336,8 +354,12 @@ int cmd_eval_cache_replay(const Args& a)
         run("collide", {c.first, c.second, c.first, c.second});
         run("collide_clear", {c.first, "clear", c.second, c.first});
     }
-    fprintf(out, "{\"summary\":true,\"zero_slot_structures\":%zu,\"collisions\":%zu,\"histories\":%ld,\"evaluations\":%ld,\"mismatches\":%ld,\"search_tries\":%ld,\"sample_zero\":%s,\"sample_collision\":%s}\n",
-            zero_slot.size(), collisions.size(), histories, evals, bad, tries, jstr(zero_slot.empty() ? "" : zero_slot[0]).c_str(),
+    lo32.clear();
+    hi32.clear();
+    for (auto& c : part_lo) { run("partial_key_low32", {c.first, c.second, c.first}); run("partial_key_low32", {c.second, c.first}); }
+    for (auto& c : part_hi) { run("partial_key_high32", {c.first, c.second, c.first}); run("partial_key_high32", {c.second, c.first}); }
+    fprintf(out, "{\"summary\":true,\"partial_low32\":%zu,\"partial_high32\":%zu,\"zero_slot_structures\":%zu,\"collisions\":%zu,\"histories\":%ld,\"evaluations\":%ld,\"mismatches\":%ld,\"search_tries\":%ld,\"sample_zero\":%s,\"sample_collision\":%s}\n",
+            part_lo.size(), part_hi.size(), zero_slot.size(), collisions.size(), histories, evals, bad, tries, jstr(zero_slot.empty() ? "" : zero_slot[0]).c_str(),
             jstr(collisions.empty() ? "" : collisions[0].first + " | " + collisions[0].second).c_str());
     fclose(out);
     return 0;
